@@ -33,10 +33,6 @@ WAKE_LIMIT = 400       # scheduler wake-ups allowed per program
 # ---------------------------------------------------------------------------
 # Worker side: run one program on the real library
 
-class _Err:
-    """Marker for an exception observed instead of a value."""
-
-
 def _g(f, *a):
     try:
         return f(*a)
@@ -76,6 +72,9 @@ def execute(prog):
     def mk_probe(tag, c):
         def probe():
             wake_count[0] += 1
+            if wake_count[0] > WAKE_LIMIT:      # deterministic step budget
+                log['budget'] = True
+                raise RuntimeError('wake budget exceeded')
             if tag not in log['wakes']:
                 log['wakes'][tag] = rd(c)
         return probe
@@ -175,7 +174,6 @@ def execute(prog):
         raise
     except Exception as e:
         log['process_error'] = [type(e).__name__, str(e)[:120]]
-    log['queue_empty'] = _g(main._clock_scheduler.queue.empty)
     main.reset()
     del r, clock, body, snapshot, mk_probe
     log['leaked_clocks'] = len(TempoClock.all)
@@ -262,8 +260,9 @@ class Judge:
         if log.get('process_error'):
             self.add('process-raises', None, log['process_error'], '', n)
         if log.get('leaked_clocks'):
-            self.add('clock-leak', 0, log['leaked_clocks'],
-                     'TempoClock.all not empty after the case', n)
+            # hygiene of the harness, not part of the property
+            raise core.HarnessError(
+                f'{log["leaked_clocks"]} TempoClock(s) survived the case')
         if 'start' not in log:
             self.add('routine-never-ran', 'first wake at beat 0', None,
                      'routine played on the clock with quant 0', 0)
@@ -482,9 +481,6 @@ class Judge:
             elif not self.close(w[1], a.secs_at(F(w[0])), exact=False):
                 self.add('play-quant-wake-seconds', a.secs_at(exp), w,
                          f'play(quant=({q}, {ph})) at beat {B}', n)
-        if log.get('queue_empty') is not True:
-            self.add('scheduler-not-drained', True, log.get('queue_empty'),
-                     '', n)
 
     def next_bar(self, nb, x, m, what, n, cur=False):
         sfx = '-curbeat' if cur else ''
@@ -684,7 +680,16 @@ FINAL_E2 = {
 
 class AffineSys:
     """One routine on the clock performing the history.  The whole program
-    is re-executed for every step, so no library object survives a case."""
+    is re-executed for every step, so no library object survives a case.
+
+    State key = the eight map/meter fields of the real clock, the current
+    (beats, seconds), the reference state (map, meter, and - while a beats=
+    is outstanding - the beat at which the routine last woke, because the
+    library reschedules from that beat), the verdict of the last step and
+    the inputs of the non-trivial rule.  A TempoClock has no other state in
+    NRT mode apart from tasks waiting in the scheduler; the pending system
+    adds the played probes and all their observed wake-ups to the key.  So
+    histories that are merged have the same futures and the same counts."""
 
     spawn = False
 
